@@ -108,6 +108,72 @@ fn absent(ch: &mut Choices, case: &mut Case) -> Result<(), String> {
     Ok(())
 }
 
+/// (c') provenance against the reference model, on generated expressions: the model of section
+/// 2 also yields, per day, what each rule painted as far as it survives (a later normal
+/// open/unknown rule matching the day, or a fallback taking over, wipes what came before). An
+/// open or unknown period of the library's schedule that lies entirely inside the minutes of one
+/// surviving rule, while no other surviving rule's minutes overlap or touch it, must carry exactly
+/// that rule's comments.
+fn single_owner(ch: &mut Choices, case: &mut Case) -> Result<(), String> {
+    let base_year = 2020;
+    let cfg = Cfg { max_rules: 4, base_year, dense: ch.chance(70), comment_pct: 70, max_day_offset: 10, repeats: false, ..Cfg::default() };
+    let g = gen_case(ch, &cfg)?;
+    label_expr(&g.ast, case);
+    if let Some(tag) = crate::model::undecided(&g.ast) {
+        case.exclude(format!("undecided:{tag}"));
+        return Ok(());
+    }
+    let dates = DateGen::new(&g.ast, g.base_year, &g.holidays.model);
+    let mut asserted_with_comments = 0;
+    for _ in 0..6 {
+        let d = dates.draw(ch, false);
+        if crate::model::undecided_at(&g.ast, d.year()).is_some() {
+            continue;
+        }
+        case.key = format!("{}  day {d}  {}", g.text, crate::gen::ctx::describe(&g.holidays));
+        let (kinds, _, contributions) = crate::model::eval_day_full(&g.ast, d, &g.holidays.model, true);
+        let day = day_ranges(&g.oh, d).map_err(|p| format!("`{}`: schedule_at({d}) panicked: {p}", g.text))?;
+        for (a, b, kind, comments) in &day {
+            if *kind == RuleKind::Closed {
+                continue;
+            }
+            let (a, b) = (usize::from(*a), usize::from(*b).min(1440));
+            // the schedule itself must be the documented one here (else C01 reports it)
+            let k = crate::model::K::of(*kind);
+            if (a..b).any(|m| kinds[m] != k) {
+                continue;
+            }
+            let inside: Vec<&crate::model::Contribution> = contributions.iter().filter(|c| (a..b).all(|m| c.minutes[m])).collect();
+            let around = a.saturating_sub(1)..(b + 1).min(1440);
+            let touching = contributions.iter().filter(|c| around.clone().any(|m| c.minutes[m])).count();
+            if inside.len() != 1 || touching != 1 {
+                case.label("period_with_several_contributors");
+                continue;
+            }
+            let rule = &g.denoted.rules[inside[0].rule];
+            let expected: Vec<String> = rule.comments.iter().map(|c| c.to_string()).collect::<BTreeSet<_>>().into_iter().collect();
+            case.units += 1;
+            if !expected.is_empty() {
+                asserted_with_comments += 1;
+            }
+            if *comments != expected {
+                return Err(format!(
+                    "`{}`: on {d} the {kind:?} period {:02}:{:02}-{:02}:{:02} comes from rule #{} alone (no other rule's period overlaps or touches it), whose comments are {expected:?}, but schedule_at reports {comments:?}",
+                    g.text,
+                    a / 60,
+                    a % 60,
+                    b / 60,
+                    b % 60,
+                    inside[0].rule + 1
+                ));
+            }
+        }
+    }
+    let distinct: BTreeSet<Vec<String>> = g.denoted.rules.iter().map(|r| r.comments.iter().map(|c| c.to_string()).collect()).collect();
+    case.nontrivial = asserted_with_comments >= 1 && g.ast.rules.len() >= 2 && distinct.len() >= 2;
+    Ok(())
+}
+
 /// (c) provenance by construction: additional rules with pairwise separated spans, each with
 /// its own comment set, all matching the probe day; plus a decoy rule that does not match.
 fn provenance(ch: &mut Choices, case: &mut Case) -> Result<(), String> {
@@ -229,25 +295,34 @@ pub fn property() -> Property {
                 rule: "generated expression (1-5 rules, 70 % dense so that commented rules overlap and coalesce) x calendars x 4 days: comments of every schedule range and of every interval of iter_range(day+time, +1..40 days) are strictly increasing and a subset of the comments of the expression's rules; none outside 1900..9999; the first interval carries exactly the comments of the schedule period containing the start instant; non-trivial = at least two commented rules or a range carrying several comments",
                 f: wellformed,
                 text_f: None,
-                cases_quick: 30_000,
+                cases_quick: 100_000,
                 cases_thorough: 800_000,
-                max_choices: 380,
+                max_choices: 400,
             },
             SubCheck {
                 name: "absent",
                 rule: "generated expression in which every rule carries a bounded year selector inside 2020..2027, probed on days at least two years away (and outside 1900..9999): schedule closed without comments, intervals without comments; non-trivial = some rule has a comment",
                 f: absent,
                 text_f: None,
-                cases_quick: 15_000,
+                cases_quick: 40_000,
                 cases_thorough: 300_000,
-                max_choices: 340,
+                max_choices: 360,
+            },
+            SubCheck {
+                name: "single_owner",
+                rule: "generated expressions (comments on 70 % of the rules) in the decided domain of the reference model x 6 expression-aware dates: the model also yields what each rule painted on the day as far as it survives (a later matching normal open/unknown rule or a fallback taking over wipes what came before); every open / unknown period of schedule_at that lies inside the minutes of exactly one surviving rule, with no other surviving rule's minutes overlapping or touching it, must carry exactly that rule's comments (sorted, deduplicated); non-trivial = some asserted period has comments and the expression has at least two rules with different comment sets",
+                f: single_owner,
+                text_f: None,
+                cases_quick: 120_000,
+                cases_thorough: 1_000_000,
+                max_choices: 400,
             },
             SubCheck {
                 name: "provenance",
                 rule: "constructed expression: 1-4 additional rules whose spans on the probe day are pairwise separated by >= 1 minute, kinds open/unknown, pairwise different comment sets, day selectors (none / weekday / weekday range / month / year / date) known to match the probe day, plus a commented decoy rule on another weekday: the schedule must consist of exactly these periods, each with exactly its rule's comments, and comment-free closed holes; non-trivial = at least two commented periods",
                 f: provenance,
                 text_f: None,
-                cases_quick: 20_000,
+                cases_quick: 60_000,
                 cases_thorough: 400_000,
                 max_choices: 80,
             },
